@@ -151,14 +151,19 @@ def _apply_history(n, hist, pure=False):
         elif kind == 'unedge':
             pool[op[2]].requires(pool[op[1]], remove=True)
             edges.discard((NAMES[op[1]], NAMES[op[2]]))
-        query_all(sched, pool, members, edges, set(), msgs,
-                  what="after %s: " % (list(op),))
+        if len(op) < 4 or op[3] != 'noquery':
+            query_all(sched, pool, members, edges, set(), msgs,
+                      what="after %s: " % (list(op),))
     return sched, pool, members, edges, msgs
 
 
 def enabled(n, members, edges):
+    """every edit, once followed by all the queries and once not (so that
+    several edits can happen between two queries)"""
     for i in range(n):
-        yield ('rm', i) if NAMES[i] in members else ('add', i)
+        op = ('rm', i) if NAMES[i] in members else ('add', i)
+        yield op
+        yield op + (None, 'noquery')
     for i in range(n):
         for j in range(n):
             if i == j:
@@ -166,8 +171,10 @@ def enabled(n, members, edges):
             e = (NAMES[i], NAMES[j])
             if e in edges:
                 yield ('unedge', i, j)
+                yield ('unedge', i, j, 'noquery')
             elif seq.acyclic(NAMES[:n], edges | {e}):
                 yield ('edge', i, j)
+                yield ('edge', i, j, 'noquery')
 
 
 def canon(pool, members, edges):
